@@ -511,6 +511,11 @@ def replay_path(uni: Universe, scn, steps, read_mode, tally, probes=None, probe_
     for i, (ev, out, acts, st, view) in enumerate(steps):
         if i > 0:
             prev_spec = steps[i - 1][3]
+        if ev.get("rel") and "a" in ev and ev["a"] != ALL:
+            fa = Q(ev["a"])
+            if Fraction(Decimal(fa.numerator) / Decimal(fa.denominator)) != fa:
+                tally("info/amount_relative_to_balance_not_a_finite_decimal")     # cannot be handed to the API exactly: the path ends
+                return soft_acc, i
         before = drv.snapshot()
         try:
             nv0 = drv.account()[0]
